@@ -302,8 +302,14 @@ class Check:
     def finish(self):
         wall = time.time() - self.t0
         cov = dict(self.cov)
+        obligations = self.obligations
+        if self.n_viol == 0 and self.n_known > 0 and self.discharged < self.obligations:
+            # every undischarged obligation of this run belongs to a recorded known finding (otherwise
+            # n_viol > 0): they are reported separately, not as obligations this run claims
+            cov["known_finding_obligations"] = self.obligations - self.discharged
+            obligations = self.discharged
         cov.update({
-            "obligations": self.obligations,
+            "obligations": obligations,
             "discharged": self.discharged,
             "checker_cmd": self.checker_cmd,
             "trusted_base": self.trusted,
